@@ -159,6 +159,19 @@ def scenario(st: infra.Stats, graph: str, placement: str, source: str):
         f_checked.__annotations__ = {"x": SRC, "return": K}
         conv_d = apischema.conversions.Conversion(catch_value_error(f_checked), source=SRC, target=K)
         expected_msg = "empty value refused"
+    if graph == "explicit_source":
+        # converters annotated with a wider type than the source they are declared with: the declaration decides
+
+        def f_wide(x):
+            return K(x)
+
+        def g_wide(k):
+            return g(k)
+
+        f_wide.__annotations__ = {"x": object, "return": K}
+        g_wide.__annotations__ = {"k": object, "return": SRC}
+        conv_d = apischema.conversions.Conversion(f_wide, source=SRC)
+        conv_s = apischema.conversions.Conversion(g_wide, source=K)
     if graph == "lazy":
         if placement != "registered":
             return
@@ -690,7 +703,7 @@ def special_worlds(st: infra.Stats):
 
 
 
-GRAPHS = ["single", "value_error", "lazy"]
+GRAPHS = ["single", "value_error", "lazy", "explicit_source"]
 PLACEMENTS = ["registered", "dynamic", "annotated", "default_conversion", "field"]
 
 
